@@ -24,7 +24,7 @@ Deviations (all compared by the correspondence run):
     `serverCount` (= `len(sfs.get(server, set()))`).
   * `_active_share_map` (dict shnum → share) is the list of its values; keys are `sh.shnum`.
     `if self._active_share_map.get(shnum) is share: del …` is `filter (· ≠ share)` (a dict has at
-    most one value per key — invariant `ActiveUniq`, proved); `del self._active_share_map[shnum]`
+    most one value per key — invariant `Inv.uniq` in FetchLemmasC03.lean, proved); `del self._active_share_map[shnum]`
     (OVERDUE) removes by share number and is a `KeyError` when the key is absent.
   * `_blocks` (dict shnum → block) is an association list shnum ↦ id of the share whose block is
     stored (`setBlock` = dict assignment).
@@ -326,6 +326,8 @@ def fetcherEv (n : Node) (g : Nat) (e : Ev) : Node :=
 def nstep (n : Node) : NEv → Node
   | .getSegment segnum req => startNewSegment { n with requests := n.requests ++ [(segnum, req)] }
   | .cancel req =>
+    -- `Cancel.cancel()` is a no-op once the request was retired or cancelled (`c.active` is False)
+    if !(n.requests.any (·.2 == req)) then n else
     let n := { n with requests := n.requests.filter (·.2 != req) }
     match n.active with
     | some a =>
